@@ -276,8 +276,8 @@ func cmdCheck(args []string) {
 		// obligation while a baseline is being written
 		var retry []*Obligation
 		for _, o := range counted {
-			if o.Expect == "canary" || (o.Status != "unknown" && o.Status != "failed") {
-				continue
+			if o.Expect == "canary" || o.ctx == nil || (o.Status != "unknown" && o.Status != "failed") {
+				continue // structural / typestate obligations have no SMT context: nothing to retry
 			}
 			be, ok := baseline[baseName(o.Name)]
 			if (!*writeBaseline && ok && be.Status == "proved") || (*writeBaseline && o.Class != "panic") {
